@@ -356,26 +356,29 @@ impl AsServer<'_> {
         demanded
             .into_iter()
             .filter_map(|addr| {
-                // Replace the demanded ip with the observed one.
-                let i = addr
-                    .iter()
-                    .position(|p| matches!(p, Protocol::Ip4(_) | Protocol::Ip6(_)))?;
-                let mut addr = addr.replace(i, |_| Some(observed_ip.clone()))?;
-
-                let is_valid = addr.iter().all(|proto| match proto {
-                    Protocol::P2pCircuit => false,
-                    Protocol::P2p(peer_id) => peer_id == peer,
-                    _ => true,
-                });
-
-                if !is_valid {
+                // Replace every demanded ip with the observed one, refuse relayed addresses and
+                // addresses that name another peer. The requester's own `/p2p` is always placed
+                // last (and only there).
+                let mut has_ip = false;
+                let mut replaced = Multiaddr::empty();
+                for proto in addr.iter() {
+                    match proto {
+                        Protocol::Ip4(_) | Protocol::Ip6(_) => {
+                            has_ip = true;
+                            replaced.push(observed_ip.clone());
+                        }
+                        Protocol::P2pCircuit => return None,
+                        Protocol::P2p(peer_id) if peer_id != peer => return None,
+                        Protocol::P2p(_) => {}
+                        other => replaced.push(other),
+                    }
+                }
+                if !has_ip {
                     return None;
                 }
-                if !addr.iter().any(|p| matches!(p, Protocol::P2p(_))) {
-                    addr.push(Protocol::P2p(peer))
-                }
+                replaced.push(Protocol::P2p(peer));
                 // Only collect distinct addresses.
-                distinct.insert(addr.clone()).then_some(addr)
+                distinct.insert(replaced.clone()).then_some(replaced)
             })
             .collect()
     }
